@@ -240,3 +240,6 @@ CHECKS["C14"]["runs"] += [gz("VerifGzWrFail", {"recover": rc, "level": lv}, {"K"
 CHECKS["C14"]["runs"] += [gz("VerifZlWrFail", {"recover": rc, "level": lv, "dict": d}, {"K": 3, "KMAX": 5}, ["C14:"], ["failure-reported", "op-after-failure"], pkg=ZLIB) for (rc, lv, d) in [(0, 0, 0), (1, 1, 1), (1, 2, 0)]]
 CHECKS["C13"]["runs"] += [gz("VerifZlReset", {"dict": 2, "hist": h}, {"N": 3, "M": 8}, ["C13:"], ["ran"], pkg=ZLIB, validate=False) for h in (0, 1)]
 CHECKS["C15"]["runs"] += [rdp("VerifRdFail", c, n, {"with": w}, ["C15:"], ["faulted"], extra={"WRAPEOF": 1}) for (c, n, w) in [(0, 2, 0), (12, 1, 1)]]
+
+# a header cut short (also inside the optional FHCRC field) must end in io.ErrUnexpectedEOF, as in compress/gzip
+CHECKS["C07"]["runs"] += [gz("VerifGzHdrRead", {}, {"X": 4}, ["C06:header-error"], ["accepted", "rejected"])]
